@@ -921,7 +921,7 @@ def _x_keepoff_make(src, rows_idx, with_data):
     route, keep = src["route"], src["keep"]
     E = [np.array([float(Fraction(e)) for e in ax]) for ax in src["edges"]]
     d = len(E)
-    P = np.array([[float(Fraction(v)) for v in src["rows"][i]] for i in rows_idx], dtype=np.float64).reshape(len(rows_idx), d)
+    P = np.array([[_yf(v) for v in src["rows"][i]] for i in rows_idx], dtype=np.float64).reshape(len(rows_idx), d)
     W = None if src["ws"] is None else np.array([float(Fraction(src["ws"][i])) for i in rows_idx], dtype=np.float64)
     if not src.get("arrays"):
         W = None if W is None else W.tolist()
@@ -965,7 +965,8 @@ def x_run_keepoff(src):
     n = len(src["rows"])
     one_d = len(src["edges"]) == 1
     log, hists, steps = [], {}, []
-    val = lambda i: float(Fraction(src["rows"][i][0])) if one_d else [float(Fraction(v)) for v in src["rows"][i]]
+    val = lambda i: _yf(src["rows"][i][0]) if one_d else [_yf(v) for v in src["rows"][i]]
+    inf_stream = src.get("stream") == "inf"
     wt = lambda i: 1 if src["ws"] is None else float(Fraction(src["ws"][i]))
 
     def fill_n(h, idx):
@@ -983,9 +984,22 @@ def x_run_keepoff(src):
             hists["created without data"] = _x_snap(h)
             for i in src["order"]:
                 before = _x_snap(h)
+                found = None
+                if inf_stream:
+                    found = {"ret": _x_ret(h.find_bin(val(i))), "after": _x_snap(h)}
                 r = _x_ret(h.fill(val(i), weight=wt(i)) if src["ws"] is not None else h.fill(val(i)))
                 steps.append({"i": i, "ret": r, "before": before, "after": _x_snap(h)})
+                if found is not None:
+                    steps[-1]["find"] = found
             hists["fill one at a time"] = _x_snap(h)
+            if inf_stream:
+                h = _x_keepoff_make(src, [], False)
+                fill_n(h, list(range(n)))
+                hists["fill_n at once"] = _x_snap(h)
+                h = _x_keepoff_make(src, [], False)
+                for i in src["order"]:
+                    fill_n(h, [i])
+                hists["fill_n one row per call"] = _x_snap(h)
             h = _x_keepoff_make(src, [], False)
             for bt in src["batches"]:
                 fill_n(h, bt)
@@ -1136,4 +1150,428 @@ def _c03x_patch():
 
 
 _c03x_patch()
+
+
+# ============================================================================================ round 8 streams
+# Two more classes on the library only (kind "c03x", no model: the driver has no memory layouts and no infinities).
+#
+#  stream:md_layouts -- a multi-dimensional (2-D / 3-D) table of values with NON-UNIFORM weights of the same shape entered into a
+#      1-D histogram by Histogram1D.fill_n (at once and in slabs) and by h1, in every memory layout of the values (C, Fortran,
+#      permuted axes, strided views of C / Fortran buffers, reversed view, nested list) times every layout of the weights
+#      (C, Fortran, nested list, the layout of the values), dropna on / off (off only for tables without NaN).  Oracle: every
+#      call equals entering the pairs (values.flat[k], weights.flat[k]) one at a time with fill = the exact Fraction sums.
+#  stream:inf_values -- +inf / -inf entries (one sign, both signs in one row, inf beside finite, inf beside NaN, only
+#      infinities) in 1-D values and N-d rows, static / numpy bins, through construction (h1 / h / h2 / h3 / the constructors),
+#      fill (find_bin first), fill_n (random batches, at once, one row per call, first chunk + fill_n), keep_missed mostly on.
+#      Oracle: only rows with a NaN are dropped; an infinite value is underflow / overflow (1-D) or missed (N-d) with its weight
+#      on every path; fill / find_bin return -1 / bin count (1-D) or None (N-d) for it; find_bin changes nothing.
+Y_EVERY, Y_SLOTS = 16, {1: "layouts", 9: "inf"}
+ENABLE_MD_LAYOUTS = True
+ENABLE_INF_VALUES = True
+Y_SHAPES = [(2, 3), (3, 2), (2, 2), (3, 4), (4, 2), (2, 5), (3, 3), (2, 2, 3), (3, 2, 2), (2, 3, 2)]
+Y_VLAYOUTS = ["C", "F", "perm", "strided", "fstrided", "rev", "list"]
+Y_WLAYOUTS = ["C", "F", "list", "as_values"]
+
+
+def _yf(v):
+    """a value of a case as a float: None = NaN, "inf" / "-inf", else the text of a rational"""
+    if v is None:
+        return float("nan")
+    if v in ("inf", "-inf"):
+        return float(v)
+    return float(Fraction(v))
+
+
+def _yx(v):
+    """... for exact comparison with edges: None, an infinite float (Fraction compares correctly with it) or a Fraction"""
+    if v is None:
+        return None
+    if v in ("inf", "-inf"):
+        return float(v)
+    return Fraction(v)
+
+
+def _y_edges(rng):
+    e = [rng.choice([-1.0, 0.0, 0.5])]
+    for _ in range(rng.randint(1, 4)):
+        e.append(e[-1] + rng.choice([0.25, 0.5, 1.0, 1.5]))
+    return [rs(x) for x in e]
+
+
+def _y_value(rng, fe):
+    u = rng.random()
+    if u < 0.12:
+        return fe[0] - rng.choice([0.25, 1.0])
+    if u < 0.24:
+        return fe[-1] + rng.choice([0.25, 1.0])
+    if u < 0.4:
+        return rng.choice(fe)
+    j = rng.randrange(len(fe) - 1)
+    return fe[j] + (fe[j + 1] - fe[j]) * rng.choice([0.25, 0.5, 0.75])
+
+
+def y_gen_layouts(rng):
+    edges = _y_edges(rng)
+    fe = [float(Fraction(x)) for x in edges]
+    shape = list(rng.choice(Y_SHAPES))
+    n = 1
+    for s in shape:
+        n *= s
+    with_nan = rng.random() < 0.3
+    vals = [None if (with_nan and rng.random() < 0.2) else rs(_y_value(rng, fe)) for _ in range(n)]
+    # at least two different places are hit (otherwise the pairing of values and weights cannot be seen)
+    vals[rng.randrange(n)] = rs(fe[0] + (fe[1] - fe[0]) * 0.5)
+    free = [i for i in range(n) if vals[i] != rs(fe[0] + (fe[1] - fe[0]) * 0.5)] or [0]
+    vals[rng.choice(free)] = rs(fe[-1] + 1.0) if len(fe) == 2 else rs(fe[-1])
+    wk = rng.choice(["int64", "int64", "float64", "float64", "none"])
+    if wk == "none":
+        ws = None
+    else:
+        pool = list(range(1, 3 * n + 1))
+        rng.shuffle(pool)
+        ws = [rs(w if wk == "int64" else w * 0.25) for w in pool[:n]]       # all different
+    perm = list(range(len(shape)))
+    while perm == list(range(len(shape))):
+        rng.shuffle(perm)
+    order = list(range(n)); rng.shuffle(order)
+    cuts = sorted({rng.randint(1, shape[0] - 1) for _ in range(rng.randint(0, 2))}) if shape[0] > 1 else []
+    src = {"stream": "layouts", "edges": edges, "shape": shape, "vals": vals, "ws": ws, "wk": wk, "perm": perm,
+           "keep": rng.random() < 0.75, "order": order, "cuts": cuts}
+    return y_build(src)
+
+
+def y_gen_inf(rng):
+    d = rng.choice([1, 1, 2, 2, 2, 3])
+    edges = [_y_edges(rng) for _ in range(d)]
+    fes = [[float(Fraction(x)) for x in e] for e in edges]
+    n = rng.choice([2, 4, 6, 10, 16])
+    nan_share = rng.choice([0, 0, 0.15])
+    rows = [[None if rng.random() < nan_share else rs(_y_value(rng, fe)) for fe in fes] for _ in range(n)]
+    sign = lambda: rng.choice(["inf", "-inf"])
+    flavours = []
+    special = list(range(n)); rng.shuffle(special)
+    for j, i in enumerate(special[:rng.randint(1, 3)]):
+        if d == 1:
+            fl = rng.choice(["pinf", "ninf"])
+        elif j == 0 and rng.random() < 0.6:
+            fl = "both"
+        else:
+            fl = rng.choice(["both", "pinf", "ninf", "same2", "all_inf", "inf_nan", "inf_finite"])
+        cols = list(range(d)); rng.shuffle(cols)
+        row = [rs(_y_value(rng, fe)) for fe in fes]
+        if fl in ("pinf", "ninf"):
+            row[cols[0]] = "inf" if fl == "pinf" else "-inf"
+        elif fl == "inf_finite":
+            row[cols[0]] = sign()
+            for c in cols[1:]:
+                row[c] = rs(fes[c][0] + (fes[c][1] - fes[c][0]) * 0.5)      # the other entries inside the bins
+        elif fl == "both":
+            row[cols[0]], row[cols[1]] = ("inf", "-inf") if rng.random() < 0.5 else ("-inf", "inf")
+            if d == 3 and rng.random() < 0.3:
+                row[cols[2]] = sign()
+        elif fl == "same2":
+            row[cols[0]] = row[cols[1]] = sign()
+        elif fl == "all_inf":
+            row = [sign() for _ in range(d)]
+        else:
+            row[cols[0]], row[cols[1]] = sign(), None
+        rows[i] = row
+        flavours.append(fl)
+    wk = rng.choice(["none", "int", "int", "dyadic"])
+    ws = None if wk == "none" else [rs(rng.choice([1, 2, 3, 5]) if wk == "int" else rng.choice([0.5, 0.25, 1.5, 2.0])) for _ in range(n)]
+    route = rng.choice({1: ["h1", "h1", "Histogram1D"], 2: ["h2", "h", "HistogramND", "Histogram2D"], 3: ["h3", "h", "HistogramND"]}[d])
+    order = list(range(n)); rng.shuffle(order)
+    order2 = list(range(n)); rng.shuffle(order2)
+    src = {"stream": "inf", "route": route, "keep": rng.random() < 0.85, "edges": edges, "rows": rows, "ws": ws,
+           "order": order, "batches": partition(rng, order2), "pre": rng.choice([0, 1, n // 2, n]), "arrays": rng.random() < 0.5,
+           "flavours": sorted(set(flavours))}
+    return y_build(src)
+
+
+def y_build(src):
+    if src["stream"] == "layouts":
+        tags = ["stream:md_layouts", "shape:" + "x".join(str(s) for s in src["shape"]), f"weights:{src['wk']}",
+                "table:nan" if any(v is None for v in src["vals"]) else "table:no_nan", f"keep_arg:{src['keep']}"]
+        ops = [{"op": "x:fill"}, {"op": "x:fill_n(layouts)"}, {"op": "x:h1(layouts)"}]
+        n = len(src["vals"])
+    else:
+        rows = src["rows"]
+        tags = ["stream:inf_values", f"d:{len(src['edges'])}", f"route:{src['route']}", f"keep_arg:{src['keep']}"]
+        tags += [f"inf:{f}" for f in src.get("flavours", [])]
+        if any("inf" in r and "-inf" in r for r in rows):
+            tags.append("inf:row_with_both_signs")
+        if any(any(v in ("inf", "-inf") for v in r) and any(v is None for v in r) for r in rows):
+            tags.append("inf:row_with_inf_and_nan")
+        if any(v is None for r in rows for v in r):
+            tags.append("inf:nan_rows")
+        tags.append("inf:weights" if src["ws"] is not None else "inf:no_weights")
+        ops = [{"op": "x:construct"}, {"op": "x:find_bin"}, {"op": "x:fill"}, {"op": "x:fill_n"}, {"op": "x:chunk+fill_n"}]
+        n = len(rows)
+    return {"kind": "c03x", "ops": ops, "tags": tags + [f"n:{min(n, 8)}"], "src": src}
+
+
+def _y_layout(np, A, name, perm):
+    """the array A (C-ordered) in another memory layout: same shape, same elements at the same indices"""
+    if name == "C":
+        return A.copy()
+    if name == "F":
+        return np.asfortranarray(A)
+    if name == "perm":
+        inv = [perm.index(i) for i in range(A.ndim)]
+        return np.ascontiguousarray(A.transpose(perm)).transpose(inv)
+    if name in ("strided", "fstrided"):
+        big = np.zeros(tuple(2 * s for s in A.shape), dtype=A.dtype, order="F" if name == "fstrided" else "C")
+        view = big[tuple(slice(None, None, 2) for _ in A.shape)]
+        view[...] = A
+        return view
+    if name == "rev":
+        return np.ascontiguousarray(A[::-1])[::-1]
+    return A.tolist()
+
+
+def y_run_layouts(src):
+    import warnings
+    import numpy as np
+    import physt
+    from physt.binnings import static_binning
+    from physt.histogram1d import Histogram1D
+    E = np.array([float(Fraction(e)) for e in src["edges"]])
+    shape = tuple(src["shape"])
+    P = np.array([_yf(v) for v in src["vals"]], dtype=np.float64).reshape(shape)
+    PW = None if src["ws"] is None else np.array([Fraction(w) for w in src["ws"]]).astype(np.int64 if src["wk"] == "int64" else np.float64).reshape(shape)
+    keep, perm = src["keep"], src["perm"]
+    has_nan = bool(np.isnan(P).any())
+    empty = lambda: Histogram1D(binning=static_binning(bins=E.copy()), keep_missed=keep)
+    hists, log = {}, []
+    cuts = [0] + [c for c in src["cuts"] if 0 < c < shape[0]] + [shape[0]]
+
+    def attempt(name, fn):
+        try:
+            with warnings.catch_warnings():
+                warnings.simplefilter("ignore")
+                hists[name] = _x_snap(fn())
+        except Exception as ex:
+            hists[name] = None
+            log.append(f"{name}: {type(ex).__name__}: {ex}"[:300])
+
+    def one_by_one():
+        h = empty()
+        for k in src["order"]:
+            v = float(P.flat[k])
+            if PW is None:
+                h.fill(v)
+            else:
+                h.fill(v, weight=PW.flat[k].item())
+        return h
+    attempt("fill one pair (values.flat[k], weights.flat[k]) at a time", one_by_one)
+    for vl in Y_VLAYOUTS:
+        V = _y_layout(np, P, vl, perm)
+        assert np.array_equal(np.asarray(V), P, equal_nan=True)
+        for wl in (Y_WLAYOUTS if PW is not None else ["none"]):
+            W = None if PW is None else _y_layout(np, PW, vl if wl == "as_values" else wl, perm)
+            assert W is None or np.array_equal(np.asarray(W), PW)
+            for dn in ((True,) if has_nan else (True, False)):
+                tag = f"values {vl}, weights {wl}, dropna={dn}"
+
+                def at_once():
+                    h = empty()
+                    h.fill_n(V, weights=W, dropna=dn)
+                    return h
+
+                def slabs():
+                    h = empty()
+                    for a, b in zip(cuts, cuts[1:]):
+                        h.fill_n(V[a:b], weights=None if W is None else W[a:b], dropna=dn)
+                    return h
+                attempt(f"fill_n at once ({tag})", at_once)
+                if len(cuts) > 2:
+                    attempt(f"fill_n in slabs {cuts} ({tag})", slabs)
+                attempt(f"h1 ({tag})", lambda: physt.h1(V, E.copy(), weights=W, dropna=dn, keep_missed=keep))
+    return {"outs": [], "log": log, "x": {"hists": hists, "steps": []}}
+
+
+def _y_exact(places, key, sq=False):
+    return sum(((w * w if sq else w) for w in places.get(key, [])), Fraction(0))
+
+
+def y_oracle_layouts(case, io):
+    src, H = case["src"], io["x"]["hists"]
+    if io["log"]:
+        return [f"refused_valid: a valid call was refused (table {src['shape']}): " + io["log"][0]]
+    pairs = [(Fraction(a), Fraction(b)) for a, b in zip(src["edges"], src["edges"][1:])]
+    nb = len(pairs)
+    ws = [Fraction(1)] * len(src["vals"]) if src["ws"] is None else [Fraction(w) for w in src["ws"]]
+    places = {}
+    for v, w in zip(src["vals"], ws):
+        if v is not None:
+            places.setdefault(region1(pairs, Fraction(v)), []).append(w)
+    ref_name = "fill one pair (values.flat[k], weights.flat[k]) at a time"
+    ref = H.get(ref_name) or {}
+    fails = []
+    for name, s in H.items():
+        for f, sq in (("freq", False), ("err2", True)):
+            exp = [rs(_y_exact(places, i, sq)) for i in range(nb)]
+            if [rs(Fraction(v)) for v in s[f]] != exp:
+                fails.append(f"paths_{f}: {name} of the {'x'.join(map(str, src['shape']))} table gives {s[f]}; entering the pairs "
+                             f"(values.flat[k], weights.flat[k]) one at a time gives {ref.get(f)}, the exact sums per bin are {exp}")
+        for f, k in (("under", -1), ("over", nb)):
+            got = s.get(f)
+            if s["keep"]:
+                if got is None or Fraction(got) != _y_exact(places, k):
+                    fails.append(f"paths_{f}: {name} gives {f}flow {got}; one pair at a time gives {ref.get(f)}, the exact weight there "
+                                 f"is {rs(_y_exact(places, k))}")
+            elif got is not None and Fraction(got) != 0:
+                fails.append(f"keep_off_missed: {name} reports keep_missed=False and {f}flow {got}")
+        if len(fails) >= 4:
+            break
+    return fails[:4]
+
+
+def y_oracle_inf(case, io):
+    src, x = case["src"], io["x"]
+    if io["log"]:
+        return [f"refused_valid: a valid call was refused (route {src['route']}, keep_missed={src['keep']}): " + io["log"][0]]
+    H = x["hists"]
+    one_d = len(src["edges"]) == 1
+    axes = [[(Fraction(a), Fraction(b)) for a, b in zip(ax, ax[1:])] for ax in src["edges"]]
+    ws = [Fraction(1)] * len(src["rows"]) if src["ws"] is None else [Fraction(w) for w in src["ws"]]
+
+    def place(row):
+        """None: dropped (a NaN in the row); (i, ...) the cell; "under" / "over" (1-D) or "missed" (N-d)"""
+        if any(v is None for v in row):
+            return None
+        reg = [region1(p, _yx(v)) for p, v in zip(axes, row)]
+        if one_d:
+            return "under" if reg[0] == -1 else ("over" if reg[0] == len(axes[0]) else (reg[0],))
+        return tuple(reg) if all(0 <= r < len(p) for r, p in zip(reg, axes)) else "missed"
+    places = {}
+    for row, w in zip(src["rows"], ws):
+        k = place(row)
+        if k is not None:
+            places.setdefault(k, []).append(w)
+    from .. import gennd
+    fails = []
+    shown = lambda f: [(m, t.get(f)) for m, t in H.items()][:7]
+    for name, s in H.items():
+        if name == "created without data":
+            continue
+        cells = gennd.unravel(s["shape"])
+        for f, sq in (("freq", False), ("err2", True)):
+            exp = [rs(_y_exact(places, c, sq)) for c in cells]
+            if [rs(Fraction(v)) if v is not None else None for v in s[f]] != exp:
+                fails.append(f"paths_{f}: {name} (route {src['route']}) gives {s[f]}, the exact sums per bin are {exp}")
+        for f in (("under", "over") if one_d else ("missed",)):
+            got = s.get(f)
+            if s["keep"]:
+                if got is None or Fraction(got) != _y_exact(places, f):
+                    fails.append(f"paths_{f}: {name} (route {src['route']}) reports {f}={got}; the weight of the rows outside the bins "
+                                 f"(rows with a NaN dropped, infinite entries are outside) is {rs(_y_exact(places, f))}; all paths: {shown(f)}")
+            elif got is not None and Fraction(got) != 0:
+                fails.append(f"keep_off_missed: {name} (route {src['route']}) reports keep_missed=False and {f}={got}")
+    flags = {s["keep"] for s in H.values()}
+    if len(flags) > 1:
+        fails.append(f"paths_keep: the same route with keep_missed={src['keep']} reports different keep_missed flags: "
+                     f"{[(m, s['keep']) for m, s in H.items()]}")
+    for st in x["steps"]:
+        row = src["rows"][st["i"]]
+        k = place(row)
+        b, a, fd = st["before"], st["after"], st.get("find")
+        if k is None:
+            if a != b:
+                fails.append(f"fill_nan: fill({row}) (a NaN in it) changed the histogram: {b} -> {a}")
+            continue
+        if fd is not None and fd["after"] != b:
+            fails.append(f"find_bin_mutates: find_bin({row}) changed the histogram")
+        if one_d:
+            exp = {"under": -1, "over": len(axes[0])}.get(k, k[0] if isinstance(k, tuple) else None)
+        else:
+            exp = list(k) if isinstance(k, tuple) else None
+        if fd is not None and fd["ret"] != exp:
+            fails.append(f"find_bin_index: find_bin({row}) = {fd['ret']}, expected {exp}")
+        if st["ret"] != exp:
+            fails.append(f"fill_ret: fill({row}) returned {st['ret']}, expected {exp}")
+        if not isinstance(k, tuple) and not b["keep"] and a != b:
+            fails.append(f"keep_off_changed: fill({row}) outside the bins changed a histogram that reports keep_missed=False: {b} -> {a}")
+    return fails[:6]
+
+
+def _c03y_patch():
+    base = {k: getattr(C03, k) for k in ("gen_case", "run_impl", "oracle", "shrink_candidates")}
+    isy = lambda case: case.get("kind") == "c03x" and case["src"].get("stream") in ("layouts", "inf")
+
+    def gen_case(self, rng, k, tier):
+        slot = Y_SLOTS.get(k % Y_EVERY)
+        if slot == "layouts" and ENABLE_MD_LAYOUTS:
+            return y_gen_layouts(rng)
+        if slot == "inf" and ENABLE_INF_VALUES:
+            return y_gen_inf(rng)
+        return base["gen_case"](self, rng, k, tier)
+
+    def run_impl(self, case):
+        if isy(case):
+            return y_run_layouts(case["src"]) if case["src"]["stream"] == "layouts" else x_run_keepoff(case["src"])
+        return base["run_impl"](self, case)
+
+    def oracle(self, case, io):
+        if isy(case):
+            return y_oracle_layouts(case, io) if case["src"]["stream"] == "layouts" else y_oracle_inf(case, io)
+        return base["oracle"](self, case, io)
+
+    def shrink_candidates(self, case):
+        if not isy(case):
+            yield from base["shrink_candidates"](self, case)
+            return
+        import copy
+        src = case["src"]
+        if src["stream"] == "inf":
+            n = len(src["rows"])
+            for i in range(n):
+                if n <= 1:
+                    break
+                s2 = copy.deepcopy(src)
+                del s2["rows"][i]
+                if s2["ws"] is not None:
+                    del s2["ws"][i]
+                ren = lambda j: j if j < i else j - 1
+                s2["order"] = [ren(j) for j in s2["order"] if j != i]
+                s2["batches"] = [[ren(j) for j in bt if j != i] for bt in s2["batches"]]
+                s2["pre"] = min(s2["pre"], n - 1)
+                yield y_build(s2)
+            return
+        # a table: remove one slab along one axis (the table stays multi-dimensional: an axis of length 1 is kept)
+        import numpy as np
+        shape = tuple(src["shape"])
+        V = np.empty(len(src["vals"]), dtype=object); V[:] = src["vals"]; V = V.reshape(shape)
+        W = None
+        if src["ws"] is not None:
+            W = np.empty(len(src["ws"]), dtype=object); W[:] = src["ws"]; W = W.reshape(shape)
+        for ax in range(len(shape)):
+            for i in range(shape[ax]):
+                if shape[ax] <= 1:
+                    break
+                s2 = copy.deepcopy(src)
+                v2 = np.delete(V, i, axis=ax)
+                s2["shape"] = list(v2.shape)
+                s2["vals"] = v2.ravel().tolist()
+                if W is not None:
+                    s2["ws"] = np.delete(W, i, axis=ax).ravel().tolist()
+                s2["order"] = list(range(len(s2["vals"])))
+                s2["cuts"] = sorted({c for c in s2["cuts"] if 0 < c < s2["shape"][0]})
+                yield y_build(s2)
+
+    for name, fn in (("gen_case", gen_case), ("run_impl", run_impl), ("oracle", oracle), ("shrink_candidates", shrink_candidates)):
+        setattr(C03, name, fn)
+    C03.RULE = C03.RULE.replace(
+        "non-trivial = some value inside a bin",
+        "two of every 16 cases (library only): stream:md_layouts -- a 2-D / 3-D table of values with all-different weights of the same "
+        "shape into a 1-D histogram by fill_n (at once, in slabs) and h1, values C / Fortran / permuted axes / strided / reversed "
+        "view / nested list, weights C / Fortran / nested list / as the values, dropna on and (no NaN) off: every call = the pairs "
+        "(values.flat[k], weights.flat[k]) entered one at a time = the exact sums; stream:inf_values -- +inf / -inf entries (one "
+        "sign, both signs in a row, beside finite / NaN, only infinities), d = 1..3, static bins, through h1 / h / h2 / h3 / the "
+        "constructors, find_bin + fill, fill_n in batches / at once / row by row / after a first chunk: only NaN rows are dropped, "
+        "an infinite value is underflow / overflow (1-D) or missed (N-d) with its weight on every path, fill and find_bin return "
+        "-1 / bin count / None for it. non-trivial = some value inside a bin")
+
+
+_c03y_patch()
 PROP = C03()
